@@ -280,14 +280,8 @@ func histOracle(h *eng.History, o *eng.Obs) []hx.Violation {
 						add("C02:uninstall-left-resource", fmt.Sprintf("step %d: uninstall succeeded but %s (policy %q) still exists", i, r.Key(), r.Fields[polKey]))
 					}
 				}
-				var listed []string
-				for _, ln := range strings.Split(so.Kept, "\n") {
-					if strings.HasPrefix(ln, "[") {
-						listed = append(listed, ln)
-					}
-				}
+				listed := keptLines(so.Kept)
 				sort.Strings(keepNames)
-				sort.Strings(listed)
 				if strings.Join(keepNames, "\n") != strings.Join(listed, "\n") {
 					add("C02:uninstall-kept-list", fmt.Sprintf("step %d: uninstall lists kept resources %q, the manifest keeps %q", i, listed, keepNames))
 				}
@@ -302,4 +296,16 @@ func histOracle(h *eng.History, o *eng.Obs) []hx.Violation {
 		before = after
 	}
 	return vs
+}
+
+// keptLines: the "[Kind] name" lines of UninstallReleaseResponse.Info, sorted
+func keptLines(info string) []string {
+	var listed []string
+	for _, ln := range strings.Split(info, "\n") {
+		if strings.HasPrefix(ln, "[") {
+			listed = append(listed, ln)
+		}
+	}
+	sort.Strings(listed)
+	return listed
 }
